@@ -2,6 +2,7 @@ package compiler
 
 import (
 	"github.com/grafana/cog/internal/ast"
+	"github.com/grafana/cog/internal/verifhook"
 )
 
 type Passes []Pass
@@ -18,12 +19,23 @@ func (passes Passes) Concat(other Passes) Passes {
 func (passes Passes) Process(schemas ast.Schemas) (ast.Schemas, error) {
 	var err error
 	processedSchemas := schemas.DeepCopy()
+	verifPassIndex := 0
+	if verifhook.Enabled {
+		verifhook.Emit("chain.begin", schemas, ast.Schemas(processedSchemas), passes)
+	}
 
 	for _, compilerPass := range passes {
 		processedSchemas, err = compilerPass.Process(processedSchemas)
 		if err != nil {
 			return nil, err
 		}
+		if verifhook.Enabled {
+			verifhook.Emit("pass.after", verifPassIndex, compilerPass, ast.Schemas(processedSchemas))
+		}
+		verifPassIndex++
+	}
+	if verifhook.Enabled {
+		verifhook.Emit("chain.end", schemas, ast.Schemas(processedSchemas), passes)
 	}
 
 	return processedSchemas, nil
